@@ -96,12 +96,23 @@ def _view_roots(e, env):
     return set()
 
 
+_META_ATTRS = {"shape", "size", "dtype", "ndim", "itemsize", "nbytes", "strides"}
+
+
 def _read_roots(e, env):
-    """every parameter some part of the expression reads"""
+    """every parameter whose CONTENTS some part of the expression reads (`x.shape`, `x.size`, `x.dtype`, `len(x)` read the array's
+    description, not its elements)"""
     out = set()
-    for x in ast.walk(e):
+    todo = [e]
+    while todo:
+        x = todo.pop()
+        if isinstance(x, ast.Attribute) and x.attr in _META_ATTRS:
+            continue
+        if isinstance(x, ast.Call) and isinstance(x.func, ast.Name) and x.func.id == "len":
+            continue
         if isinstance(x, ast.Name) and isinstance(x.ctx, ast.Load):
             out |= set(env.get(x.id, ()))
+        todo += list(ast.iter_child_nodes(x))
     return out
 
 
@@ -347,9 +358,52 @@ class FlowInterp(Interp):
                 v = self.ev(e.args[0], st, fq)
                 if isinstance(v, (list, tuple)):
                     return list(v) if nm == "list" else tuple(v)
+            if nm == "next" and 1 <= len(e.args) <= 2 and isinstance(e.args[0], ast.Name) and e.args[0].id in st.env.get("<iters>", ()) \
+                    and isinstance(st.env.get(e.args[0].id), list):
+                # an iterator hands out its first remaining item and keeps the rest
+                items = st.env[e.args[0].id]
+                if items:
+                    st.env[e.args[0].id] = list(items[1:])
+                    return items[0]
+                return self.ev(e.args[1], st, fq) if len(e.args) == 2 else OPAQUE
+            gen = self.generator_items(e, st, fq)
+            if gen is not None:
+                return gen
             if isinstance(f, ast.Attribute) and isinstance(f.value, ast.Name) and f.value.id in ("np", "numpy") \
                     and f.attr in ("empty", "zeros", "ones", "full", "ndarray", "empty_like", "zeros_like", "ones_like", "full_like"):
                 return Fresh(frozenset())          # a new local array that holds no field data yet
+        if isinstance(e, (ast.List, ast.Tuple)) and any(isinstance(x, ast.Starred) for x in e.elts):
+            # [a, *xs]: the items of xs, not xs itself, are elements of the new sequence
+            out = []
+            for x in e.elts:
+                if isinstance(x, ast.Starred):
+                    v = self.ev(x.value, st, fq)
+                    if not isinstance(v, (list, tuple)):
+                        return OPAQUE
+                    out += list(v)
+                else:
+                    out.append(self.ev(x, st, fq))
+            return out if isinstance(e, ast.List) else tuple(out)
+        if isinstance(e, (ast.ListComp, ast.GeneratorExp)) and len(e.generators) == 1:
+            # a comprehension over a sequence whose items are known is the list of its element expression (the comprehension's own
+            # variables are bound in a copy of the state); over an unknown sequence: views of an array stay views of that array
+            g = e.generators[0]
+            it = self.ev(g.iter, st, fq)
+            if isinstance(it, (list, tuple)) and not g.ifs:
+                out = []
+                for x in it:
+                    s2 = st.fork()
+                    self.bind_target(g.target, x, s2)
+                    out.append(self.ev(e.elt, s2, fq))
+                return out
+            s2 = st.fork()
+            self.bind_target(g.target, self.abstract_elem(g.iter, st, fq), s2)
+            v = self.ev(e.elt, s2, fq)
+            if isinstance(v, Roots):
+                return Roots(v)
+            if isinstance(v, Fresh):
+                return v
+            return OPAQUE
         if isinstance(e, ast.Subscript):
             base = self.ev(e.value, st, fq)
             if isinstance(base, tuple):
@@ -399,6 +453,67 @@ class FlowInterp(Interp):
             return a if repr(a) == repr(b) else OPAQUE
         return super().ev(e, st, fq)
 
+    def generator_items(self, e, st, fq):
+        """the list of values a call of a generator function of the analysed module yields, when its body can be followed on one path
+        with known loop items and touches none of the arrays (it only hands names and buffers on); else None"""
+        try:
+            tg = [(r, q, n) for r, q, n in self.prog.resolve(e, self.rel) if r == self.rel]
+        except Exception:
+            return None
+        if len(tg) != 1:
+            return None
+        _, q, fn = tg[0]
+        if not any(isinstance(y, ast.Yield) for y in ast.walk(fn)) or any(isinstance(y, (ast.YieldFrom, ast.Return)) and getattr(y, "value", None) is not None
+                                                                         for y in ast.walk(fn)):
+            return None
+        if q in self.stack or len(self.stack) >= self.max_depth:
+            return None
+        params = [a.arg for a in fn.args.args]
+        static = any(isinstance(d, ast.Name) and d.id == "staticmethod" for d in fn.decorator_list)
+        if params and params[0] in ("self", "cls") and not static:
+            params = params[1:]
+        if any(isinstance(a, ast.Starred) for a in e.args) or e.keywords or len(e.args) != len(params):
+            return None
+        env2 = {k: v for k, v in st.env.items() if k.startswith("self.")}
+        env2.update({p_: self.ev(a, st, fq) for p_, a in zip(params, e.args)})
+        env2["self"] = OPAQUE
+        env2["<yields>"] = ()
+        s2 = State(env2, st.tok)
+        self.stack.append(q)
+        try:
+            outs = self.run(fn, s2, q)
+        except AnalysisError:
+            return None
+        finally:
+            self.stack.pop()
+        if len(outs) != 1 or outs[0].tok.problems != st.tok.problems or outs[0].tok.writes != st.tok.writes or outs[0].tok.loc != st.tok.loc \
+                or outs[0].env.get("<yields>") is None:
+            return None
+        return list(outs[0].env["<yields>"])
+
+    def abstract_elem(self, e, st, fq):
+        """what the loop variable(s) of `for ... in e` stand for when the items cannot be enumerated: an item of (a view of) an array
+        is a view of that array; enumerate/zip give tuples of such items; anything else is unknown"""
+        if isinstance(e, ast.Call) and isinstance(e.func, ast.Name) and not any(isinstance(a, ast.Starred) for a in e.args):
+            nm = e.func.id
+            if nm == "enumerate" and e.args:
+                return (OPAQUE, self.abstract_elem(e.args[0], st, fq))
+            if nm == "zip" and e.args and not e.keywords:
+                return tuple(self.abstract_elem(a, st, fq) for a in e.args)
+            if nm in ("reversed", "list", "tuple", "iter", "sorted") and len(e.args) == 1:
+                return self.abstract_elem(e.args[0], st, fq)
+        v = self.ev(e, st, fq)
+        if isinstance(v, Roots):
+            return Roots(v)
+        if isinstance(v, Fresh):
+            return v
+        if isinstance(v, (list, tuple)) and v:
+            if len({repr(x) for x in v}) == 1:
+                return v[0]
+            if all(isinstance(x, Roots) for x in v):
+                return Roots(self.roots_of(v))
+        return OPAQUE
+
     # ------------------------------------------------------------ remembered comparisons
     @staticmethod
     def _signs(v):
@@ -440,6 +555,8 @@ class FlowInterp(Interp):
             # np.copyto(dst, src) is the store dst[...] = src
             dst, val = self.ev(n.value.args[0], st, fq), self.ev(n.value.args[1], st, fq)
             if isinstance(dst, Roots):
+                if self.unknown_value(val, n.value.args[1]):
+                    self.problem(st, "store-undecided", f"the value copied by `{src(n)[:70]}` could not be followed back to the arrays of the transpose", n, fq)
                 self.check_extent(st, dst, n, fq, "destination")
                 self.check_extent(st, val, n, fq, "source")
                 self.event(st, self.roots_of(val), set(dst), n, fq)
@@ -457,25 +574,53 @@ class FlowInterp(Interp):
                     # a call that is handed one of the arrays and is not one of the analysed routines: it may write it
                     self.problem(st, "call-undecided", f"`{src(n)[:70]}` is given an array of the transpose; what it does with it is not known", n, fq)
                     return [st]
+        if isinstance(n, ast.Assign) and isinstance(n.value, ast.Call):
+            # `x = f(<array>, ...)` with f none of the analysed routines, not a numpy function, not a method of an array and not a
+            # builtin that only inspects its arguments: f may write the array or return a copy the analysis cannot relate to it
+            c = n.value
+            f = c.func
+            nm = f.attr if isinstance(f, ast.Attribute) else f.id if isinstance(f, ast.Name) else ""
+            if nm not in _COLLECTIVES and not self.prog.resolve(c, self.rel) and self.generator_items(c, st.fork(), fq) is None:
+                recv_np = isinstance(f, ast.Attribute) and isinstance(f.value, ast.Name) and f.value.id in ("np", "numpy", "math", "warnings")
+                recv_val = self.ev(f.value, st, fq) if isinstance(f, ast.Attribute) and not recv_np else None
+                inspects = isinstance(f, ast.Name) and f.id in _INSPECTING_BUILTINS
+                if not (recv_np or isinstance(recv_val, (Roots, Fresh)) or inspects):
+                    given = [a for a in list(c.args) + [k.value for k in c.keywords] if isinstance(self.ev(a, st, fq), Roots)]
+                    if given:
+                        self.problem(st, "call-undecided", f"`{src(n)[:70]}` hands an array of the transpose to a routine that was not analysed", n, fq)
         if isinstance(n, ast.AugAssign) and isinstance(n.target, ast.Name) and isinstance(st.env.get(n.target.id), list):
             st.env[n.target.id] = OPAQUE
+            return [st]
+        if isinstance(n, ast.Expr) and isinstance(n.value, ast.Yield):
+            if "<yields>" in st.env and st.env["<yields>"] is not None:
+                st.env["<yields>"] = tuple(st.env["<yields>"]) + (self.ev(n.value.value, st, fq) if n.value.value is not None else None,)
             return [st]
         if isinstance(n, (ast.Continue, ast.Break)):
             # leave the iteration: nothing more of the body runs for this state (the loop resets the mark)
             st.env["<loopctl>"] = "continue" if isinstance(n, ast.Continue) else "break"
             st.ret = True
             return [st]
+        if isinstance(n, ast.Assign) and len(n.targets) == 1 and isinstance(n.targets[0], ast.Name) and isinstance(n.value, ast.Call) \
+                and isinstance(n.value.func, (ast.Name, ast.Attribute)):
+            # names bound to an ITERATOR (zip / iter / map / enumerate / reversed / a generator call): `next()` and `for` consume it
+            fnm = n.value.func.id if isinstance(n.value.func, ast.Name) else n.value.func.attr
+            is_iter = fnm in ("zip", "iter", "enumerate", "reversed", "map", "filter") or self.generator_items(n.value, st.fork(), fq) is not None
+            its = tuple(x for x in st.env.get("<iters>", ()) if x != n.targets[0].id)
+            st.env["<iters>"] = its + ((n.targets[0].id,) if is_iter else ())
         if isinstance(n, ast.For):
             it = self.ev(n.iter, st, fq)
+            if isinstance(n.iter, ast.Name) and n.iter.id in st.env.get("<iters>", ()) and isinstance(it, (list, tuple)):
+                outs = self.run_loop(n, [st], fq, it)
+                for s_ in outs:
+                    s_.env[n.iter.id] = []          # the iterator is exhausted
+                return outs
             if not isinstance(it, (list, tuple)):
                 if self.moves_field(n):
                     self.problem(st, "loop-undecided", f"the iterations of `for {src(n.target)} in {src(n.iter)[:50]}`, which carry out layout steps, "
                                  "could not be enumerated", n, fq)
                 # unknown sequence: one-or-more iterations, the body is read twice (stability); an element of an array is a view of it
-                x = it if isinstance(it, (Roots, Fresh)) else OPAQUE
-                if isinstance(n.iter, ast.Call) and src(n.iter.func) == "enumerate" and n.iter.args:
-                    inner = self.ev(n.iter.args[0], st, fq)
-                    x = (OPAQUE, inner if isinstance(inner, (Roots, Fresh)) else OPAQUE)
+                # (also through enumerate / zip / reversed)
+                x = self.abstract_elem(n.iter, st, fq)
                 it = [x, x]
             # one pass of the body per element (also `enumerate(x, start=k)`, which the engine reads as start=0)
             return self.run_loop(n, [st], fq, it)
@@ -557,7 +702,22 @@ class FlowInterp(Interp):
                 # a local array: it now also holds what the stored value was computed from
                 st.env[b.id] = Fresh(frozenset(st.env[b.id].derived | self.roots_of(val)))
                 return
+            # ASSUMPTION of every verdict on the location of the field: each store into one of the caller's arrays was seen together
+            # with the arrays its value was computed from.  A value the interpreter could not follow (neither a view/copy of known
+            # arrays nor a literal number) may carry the field: the path is undecided, the store is not read as `writes nothing of the field`
+            if self.unknown_value(val, value_node) and isinstance(self.ev(t.value, st, fq), Roots):
+                self.problem(st, "store-undecided", f"the value stored by `{src(node)[:70]}` could not be followed back to the arrays of the transpose",
+                             node, fq)
         return super().assign(t, val, value_node, st, fq, node)
+
+    @staticmethod
+    def unknown_value(val, value_node):
+        if val is not OPAQUE:
+            return False
+        v = value_node
+        if isinstance(v, ast.UnaryOp) and isinstance(v.op, (ast.USub, ast.UAdd)):
+            v = v.operand
+        return not (isinstance(v, ast.Constant) and isinstance(v.value, (int, float, complex)) and not isinstance(v.value, bool))
 
     def check_extent(self, st, view, node, fq, side):
         if st.env.get("<lay_dst>") is None and st.env.get("<lay_src>") is None and self.laystack:
@@ -570,21 +730,70 @@ class FlowInterp(Interp):
         return super().check_extent(st, view, node, fq, side)
 
     # ------------------------------------------------------------ calls
+    def exec_call(self, e, st, fq, want_value):
+        f = e.func
+        name = f.id if isinstance(f, ast.Name) else f.attr if isinstance(f, ast.Attribute) else ""
+        if name in _COLLECTIVES + ("Bcast", "Reduce", "Allreduce") and len(e.args) >= 2:
+            # ASSUMPTION of the engine's reading of a collective (field moves from the send to the receive buffer): both buffers are
+            # views of known arrays.  A buffer that was not followed makes the path undecided; a local array that receives takes over
+            # what the send buffer holds
+            vals = []
+            for a, role in zip(e.args[:2], ("send", "receive")):
+                v = self.ev(a, st, fq)
+                if isinstance(v, (tuple, list)) and v:
+                    v = v[0]
+                vals.append(v)
+                if not isinstance(v, (Roots, Fresh)):
+                    self.problem(st, "array-argument-undecided", f"the {role} buffer `{src(a)[:50]}` of `{src(e)[:60]}` could not be followed", e, fq)
+            if isinstance(vals[1], Fresh):
+                b = e.args[1]
+                if isinstance(b, (ast.Tuple, ast.List)) and b.elts:
+                    b = b.elts[0]
+                for _ in range(6):
+                    if isinstance(b, ast.Subscript):
+                        b = b.value
+                    elif isinstance(b, ast.Call) and isinstance(b.func, ast.Attribute) and b.func.attr in _VIEW_METHODS:
+                        b = b.func.value
+                    else:
+                        break
+                if isinstance(b, ast.Name) and isinstance(st.env.get(b.id), Fresh):
+                    st.env[b.id] = Fresh(frozenset(st.env[b.id].derived | self.roots_of(vals[0])))
+                else:
+                    self.problem(st, "array-argument-undecided", f"the local receive buffer `{src(e.args[1])[:50]}` of `{src(e)[:60]}` could not be followed", e, fq)
+        return super().exec_call(e, st, fq, want_value)
+
     def invoke(self, call, q, fn, st, fq):
         params = [a.arg for a in fn.args.args]
         if params and params[0] in ("self", "cls"):
             params = params[1:]
         dvals = dict(zip(params[len(params) - len(fn.args.defaults):], fn.args.defaults))
+        if any(isinstance(d, ast.Name) and d.id == "staticmethod" for d in fn.decorator_list) and [a.arg for a in fn.args.args][:1] not in (["self"], ["cls"]):
+            params = [a.arg for a in fn.args.args]
         bound = {}
-        for i, a in enumerate(call.args):
+        # positional arguments; `*seq` stands for the items of seq when they are known (a tuple built by the caller or yielded by a
+        # generator), otherwise every parameter from there on is unknown (never bound to the sequence itself)
+        pos, star_unknown = [], False
+        for a in call.args:
+            if isinstance(a, ast.Starred):
+                v = self.ev(a.value, st, fq)
+                if isinstance(v, (tuple, list)):
+                    pos += list(v)
+                else:
+                    star_unknown = True
+                    break
+            else:
+                pos.append(self.ev(a, st, fq))
+        for i, v in enumerate(pos):
             if i < len(params):
-                bound[params[i]] = self.ev(a, st, fq)
+                bound[params[i]] = v
         for k in call.keywords:
             if k.arg in params:
                 bound[k.arg] = self.ev(k.value, st, fq)
+            elif k.arg is None:
+                star_unknown = True
         for p in params:
             if p not in bound:
-                bound[p] = self.ev(dvals[p], st, fq) if p in dvals else OPAQUE
+                bound[p] = OPAQUE if star_unknown else (self.ev(dvals[p], st, fq) if p in dvals else OPAQUE)
         short, owner = q.split(".")[-1], q.split(".")[0]
         lay_src = bound.get("layout_source", bound.get("source_name"))
         lay_dst = bound.get("layout_dest", bound.get("dest_name"))
@@ -665,6 +874,9 @@ class FlowInterp(Interp):
         return results
 
 
+_INSPECTING_BUILTINS = {"len", "zip", "enumerate", "list", "tuple", "range", "slice", "reversed", "iter", "next", "sorted", "isinstance", "id", "min",
+                        "max", "sum", "any", "all", "int", "float", "bool", "str", "type", "print", "repr", "abs", "divmod", "map", "filter", "hasattr",
+                        "getattr", "memoryview"}
 _CMP_SIGNS = {ast.Lt: frozenset("<"), ast.LtE: frozenset("<="), ast.Gt: frozenset(">"), ast.GtE: frozenset(">="),
               ast.Eq: frozenset("="), ast.NotEq: frozenset("<>")}
 _CMP_NEG = {"Lt": "GtE", "GtE": "Lt", "Gt": "LtE", "LtE": "Gt", "Eq": "NotEq", "NotEq": "Eq"}
@@ -678,6 +890,17 @@ def _short_path(assumed):
     return "; ".join(out) or "-"
 
 
+def safe_flow_check(chk, prog, rel, cls, entry="transpose", extra_final=None):
+    """flow_check; when the interpreter gives up (state explosion, recursion without contract) the flow rules are undecided and the
+    remaining rules of the check still run"""
+    try:
+        return flow_check(chk, prog, rel, cls, entry, extra_final)
+    except AnalysisError as e:
+        chk.ob("D0-flow-undecided", chk.mod(rel).func(f"{cls}.{entry}"), f"field-location flow over {cls}.{entry}", None,
+               f"cannot decide: the field-location flow could not be completed ({e})", file=rel, func=f"{cls}.{entry}")
+        return None
+
+
 def flow_check(chk, prog, rel, cls, entry="transpose", extra_final=None):
     """run the field-location flow over cls.transpose for buf in {None, given} x route lengths"""
     mod = chk.mod(rel)
@@ -686,6 +909,7 @@ def flow_check(chk, prog, rel, cls, entry="transpose", extra_final=None):
     n_paths = 0
     effects = {c: class_effects(mod, c) for c in ("LayoutHandler", "LayoutSwapper") if mod.has(c)}
     alias_seen = set()
+    any_lost = {}
     for buf_given in (False, True):
         for n in ROUTE_LENGTHS:
             it = FlowInterp(prog, rel, cls, chk, {"nSteps": n}, assume_false={"self._buffer_size == 0"},
@@ -707,14 +931,18 @@ def flow_check(chk, prog, rel, cls, entry="transpose", extra_final=None):
                 RULES = {"stale-read": "D3-no-stale-read", "clobber": "D3-no-clobber", "aliasing": "D1-distinct-buffers",
                          "layout-bookkeeping": "D4-layout-bookkeeping", "extent": "D5-view-extent"}
                 lost = any(kind not in RULES for kind, *_ in t.problems)
-                # D1/D3/D4/D5 problems recorded along the path
+                # D1/D3/D4/D5 problems recorded along the path.  ASSUMPTION of each: what the interpreter knew when it recorded the
+                # problem was complete - for the token-dependent kinds (stale read, clobber, book-keeping, extent) nothing on the whole
+                # path was left unfollowed; for `aliasing` (two parameters of one call bound to one array) nothing BEFORE the call
+                lost_before = False
                 for kind, msg, line, construct, fq in t.problems:
                     rule = RULES.get(kind)
                     if rule is None:
+                        lost_before = True
                         chk.ob("D0-flow-undecided", None, construct, None, f"{msg} [{bdesc}, route length {n}]",
                                file=rel, func=fq)
                         continue
-                    if lost and kind != "aliasing":
+                    if (lost and kind != "aliasing") or (kind == "aliasing" and lost_before):
                         chk.ob("D0-flow-undecided", None, construct, None, f"{msg} - on a path the analysis could not follow completely "
                                f"[{bdesc}, route length {n}]", file=rel, func=fq)
                         continue
@@ -722,6 +950,7 @@ def flow_check(chk, prog, rel, cls, entry="transpose", extra_final=None):
                         if (construct, fq) in alias_seen:
                             continue
                         alias_seen.add((construct, fq))
+                    # ASSUMPTION (checked above): decisive only on a path followed completely (`lost`/`lost_before` demote it to D0-flow-undecided)
                     o_ = chk.ob(rule, None, construct, False, f"{msg} [{bdesc}, route length {n}, path: {path}]",
                                 file=rel, func=fq)
                     o_.line = line
@@ -733,31 +962,39 @@ def flow_check(chk, prog, rel, cls, entry="transpose", extra_final=None):
                        f"field ends in `{t.loc}`, the caller swaps its buffers assuming `dest` "
                        f"(trace: {[x[1] for x in t.trace][-4:]})" + (und if lost else ""), file=rel, func=f"{cls}.{entry}")
                 # D4 final layout
+                # ASSUMPTION: the layout the data is in is ONE layout name of the route (a symbol); anything else (a list of names, an
+                # unknown value) means the layout argument of a step was mis-read: undecided
                 lay = unwrap(t.layout)
                 expect = {repr(Sym("name", "dest_name")), repr(Sym("step", n - 1))}
                 if same:
                     expect.add(repr(Sym("name", "source_name")))
                 okl = repr(lay) in expect
-                chk.ob("D4-final-layout", fn, f"{cls}.{entry}[{bdesc}; route length {n}; {path}]", okl if okl or not lost else None,
+                lay_known = isinstance(lay, Sym) and lay.kind in ("name", "step")
+                chk.ob("D4-final-layout", fn, f"{cls}.{entry}[{bdesc}; route length {n}; {path}]", okl if okl or (lay_known and not lost) else None,
                        "data is in the destination layout at exit" if okl else
-                       f"data is in layout `{lay}` at exit, expected the destination layout" + (und if lost else ""), file=rel,
+                       f"data is in layout `{lay}` at exit, expected the destination layout" + (und if lost or not lay_known else ""), file=rel,
                        func=f"{cls}.{entry}")
-                # D1 source intact
+                # D1 source intact.  ASSUMPTION: the write to `source` was attributed through names whose values were followed on the
+                # whole path (on a path with an unfollowed loop/argument the buffer variables may be stale): else undecided
                 if buf_given:
                     oks = "source" not in t.writes
-                    chk.ob("D1-source-intact", fn, f"{cls}.{entry}[{bdesc}; route length {n}; {path}]", oks,
+                    chk.ob("D1-source-intact", fn, f"{cls}.{entry}[{bdesc}; route length {n}; {path}]", oks if oks or not lost else None,
                            "source is not in the write set" if oks else
                            f"`source` is written although a spare buffer was supplied "
-                           f"(writes {[x for x in t.trace if 'source' in x[3]][:2]})", file=rel, func=f"{cls}.{entry}")
+                           f"(writes {[x for x in t.trace if 'source' in x[3]][:2]})" + (und if lost else ""), file=rel, func=f"{cls}.{entry}")
                 if extra_final:
+                    o.interp, o.lost = it, lost
                     extra_final(chk, o, bdesc, n, path, same)
                 finals.append((t.loc, tuple(sorted(t.writes)), same, path.replace(str(n), "n")))
+                any_lost[(buf_given, n)] = any_lost.get((buf_given, n), False) or lost
             summary[(buf_given, n)] = sorted(set((a, b, c) for a, b, c, d in finals))
     # 2-periodicity of the abstract result in the route length
     for buf_given in (False, True):
         for n in ROUTE_LENGTHS:
             if n >= 2 and n + 2 in ROUTE_LENGTHS:
                 ok = summary[(buf_given, n)] == summary[(buf_given, n + 2)]
+                if not ok and (any_lost.get((buf_given, n)) or any_lost.get((buf_given, n + 2))):
+                    ok = None          # the final states of a path that was not followed completely are not comparable
                 chk.ob("D2-periodic", fn, f"{cls}.{entry}[{'buf given' if buf_given else 'buf=None'}; n={n} vs n+2]",
                        ok, "abstract final state depends only on the parity of the route length "
                        "(so the enumerated lengths cover all lengths)" if ok else
@@ -1050,9 +1287,14 @@ def _known_factor(text):
                 t in ("mpi_size", "nSplits") or re.fullmatch(r"\d+", t))
 
 
-def _known_product(sl):
-    from ..geometry import _split_mul
+def _known_product(sl, roles=None):
+    from ..geometry import _split_mul, rename
     import re
+    if roles:
+        # the two layout variables written by their roles (source / destination of the pair)
+        sl = sl.copy()
+        sl.base = rename(sl.base, roles)
+        sl.over = {rename(k, roles): rename(v, roles) for k, v in sl.over.items()}
     return all(_known_factor(f) for v in sl.over.values() for f in _split_mul(v)) and \
         all(re.fullmatch(_AX, k.replace(" ", "")) for k in sl.over) and \
         bool(re.fullmatch(rf"{_LAY}\.shape", sl.base.replace(" ", "")))
@@ -1087,6 +1329,13 @@ def alternatives(fn, e, depth=4, guards=()):
         if ds or others:
             # bound in a way the rule does not follow (loop target, other augmented assignment): an unknown factor
             return [([ast.Name(id=f"<{e.id}: not followed>", ctx=ast.Load())], list(guards))]
+    if isinstance(e, ast.Call) and src(e.func) in ("max", "min", "np.maximum", "np.minimum") and len(e.args) >= 2 and not e.keywords \
+            and not any(isinstance(a, ast.Starred) for a in e.args) and depth > 0:
+        # the larger / smaller of several values is one of them
+        out = []
+        for a in e.args:
+            out += alternatives(fn, a, depth - 1, guards)
+        return out
     if isinstance(e, ast.BinOp) and isinstance(e.op, ast.Mult):
         out = []
         for fa, ga in alternatives(fn, e.left, depth, guards):
@@ -1691,6 +1940,38 @@ def inline_param_items(fn):
     return len(mapping)
 
 
+class _InvToIndex(ast.NodeTransformer):
+    """`L.inv_dims_order[e]` is `L.dims_order.index(e)` (inv_dims_order is the inverse permutation of dims_order: C02 P2-derived-attributes)"""
+
+    def visit_Subscript(self, node):
+        self.generic_visit(node)
+        if isinstance(node.value, ast.Attribute) and node.value.attr == "inv_dims_order" and not isinstance(node.slice, (ast.Slice, ast.Tuple)) \
+                and isinstance(node.ctx, ast.Load):
+            new = ast.Call(func=ast.Attribute(value=ast.Attribute(value=node.value.value, attr="dims_order", ctx=ast.Load()), attr="index", ctx=ast.Load()),
+                           args=[node.slice], keywords=[])
+            return ast.copy_location(new, node)
+        return node
+
+
+def copyto_as_store(fn):
+    """`np.copyto(A, B)` / `np.copyto(A, B, casting=...)` as a statement is the store `A[...] = B` (assignment into an array casts like
+    casting='unsafe'; the other casting rules only refuse some element types, they never change a value): written `A[:] = B`, the form
+    the store-reading engines know (not rewritten with `where=`)"""
+    n_done = 0
+    for owner, f, blk in list(_blocks_of(fn)):
+        for k, st in enumerate(blk):
+            if isinstance(st, ast.Expr) and isinstance(st.value, ast.Call) and src(st.value.func) in ("np.copyto", "numpy.copyto") \
+                    and len(st.value.args) == 2 and all(kw.arg == "casting" for kw in st.value.keywords) \
+                    and not any(isinstance(a, ast.Starred) for a in st.value.args):
+                dst, val = st.value.args
+                new = ast.Assign(targets=[ast.Subscript(value=dst, slice=ast.Slice(lower=None, upper=None, step=None), ctx=ast.Store())], value=val)
+                blk[k] = ast.copy_location(new, st)
+                n_done += 1
+    if n_done:
+        ast.fix_missing_locations(fn)
+    return n_done
+
+
 def unit_view(mod, cls_name, q, want=None, normal=False):
     """private copy of method q of the class with: own-class calls written positionally, parallel assignments of plain names split,
     (when `want` is given and q itself lacks it) sibling methods it delegates to written in place, contradictory arms emptied;
@@ -1704,6 +1985,9 @@ def unit_view(mod, cls_name, q, want=None, normal=False):
         inline_delegations(v, cls_name, meths, want)
         positional_calls(v, cls_name, meths)
     split_parallel_assign(v)
+    copyto_as_store(v)
+    _InvToIndex().visit(v)
+    ast.fix_missing_locations(v)
     inline_param_items(v)
     conditional_comprehensions(v)
     unroll_name_loops(v)
@@ -1741,7 +2025,13 @@ def _block_size_var(flow, prefer="size"):
                 used.append(up.id)
             elif isinstance(up, ast.BinOp) and isinstance(up.op, ast.Add):
                 used += [x.id for x in (up.left, up.right) if isinstance(x, ast.Name)]
+            # `buf[k*x : (k+1)*x]`, `buf[a : a + n*x]`: a product that scales the bound of a cut is its extent as well
+            if isinstance(up, ast.BinOp):
+                used += [x.id for x in ast.walk(up) if isinstance(x, ast.Name) and isinstance(x.ctx, ast.Load)]
     cands = [u for u in dict.fromkeys(used) if u in flow.prods]
+    # `proven`: exactly one product is used as the extent of a cut of the flat buffer; otherwise the reference name is a GUESS (a rule
+    # that would report a violation from a guessed block size must say `undecided` instead)
+    flow.size_var_proven = len(cands) == 1
     if len(cands) == 1:
         return cands[0]
     if prefer in flow.prods and (not cands or prefer in cands):
@@ -1884,6 +2174,7 @@ def packer_addressing(chk, rel, pack, fp, envp, vp, QP):
         return
     env_keep = {k: v for k, v in envp.items() if k != vp}
     size = sympy.Symbol(vp, integer=True)
+    agreed = bool(chk.__dict__.get("_c01_vp_agrees"))
     sends = []
     for st in ast.walk(pack):
         if isinstance(st, ast.Assign) and len(st.targets) == 1 and isinstance(st.targets[0], ast.Subscript):
@@ -1919,7 +2210,9 @@ def packer_addressing(chk, rel, pack, fp, envp, vp, QP):
         cnt = _shifted_counter(L)
         if idx is None and cnt is not None and sympy.Symbol(cnt[0], integer=True) in lo_s.free_symbols:
             k = sympy.Symbol(cnt[0], integer=True)
-            if sympy.expand(lo_s - k * stride) == 0:
+            # ASSUMPTIONS: the loop is the only writer of the send buffer (no store outside it fills slot 0) and the stride is the
+            # exchanged block size (so that `slot k` is what the exchange delivers to rank k)
+            if sympy.expand(lo_s - k * stride) == 0 and not others and sympy.expand(stride - size) == 0:
                 verdicts.append((False, f"block k of the send buffer is written at `{src(lo)}`, but `{cnt[0]}` counts the destination ranks from "
                                  f"{cnt[1]}: the block of rank k lands in slot k+{cnt[1]}, while the exchange delivers slot k to rank k - every rank "
                                  "receives the block of its predecessor, slot 0 is never filled and the last block lies beyond the exchanged chunk", st))
@@ -1931,7 +2224,7 @@ def packer_addressing(chk, rel, pack, fp, envp, vp, QP):
             if sympy.expand(lo_s - k * stride) == 0 and sympy.expand(stride - size) == 0:
                 verdicts.append((True, good, st))
             elif sympy.expand(lo_s - k * stride) == 0:
-                verdicts.append(_stride_verdict(stride, vp, fp, st, f"block k is written at k x `{stride}`"))
+                verdicts.append(_stride_verdict(stride, vp, fp, st, f"block k is written at k x `{stride}`", agreed))
             else:
                 verdicts.append((None, f"offset `{src(lo)}` of the block is not (iteration counter) x (block extent `{stride}`)", st))
             continue
@@ -1952,6 +2245,12 @@ def packer_addressing(chk, rel, pack, fp, envp, vp, QP):
             continue
         if not any(inc_st is b_ for b_ in L.body):
             g = parent(inc_st)
+            # ASSUMPTION: the guard can differ from one destination rank to the next (it reads something the loop changes); a guard
+            # that is the same for all iterations either always or never advances the offset: not this defect, undecided
+            if not (isinstance(g, ast.If) and _loop_varying(L, g.test)):
+                verdicts.append((None, f"`{src(inc_st)}` is executed under `{src(g.test)[:60] if isinstance(g, ast.If) else src(g)[:60]}`, which "
+                                 "was not shown to vary with the destination rank", inc_st))
+                continue
             verdicts.append((False, f"`{src(inc_st)}` is executed only under `{src(g.test)[:60] if isinstance(g, ast.If) else src(g)[:60]}`: on the "
                              f"iterations where it is not, the next block is written over the slot of this destination rank, but the exchange "
                              "delivers slot k of the send buffer to rank k - every later rank receives the block of another rank", inc_st))
@@ -1961,6 +2260,12 @@ def packer_addressing(chk, rel, pack, fp, envp, vp, QP):
         if skips:
             c = skips[0]
             g = parent(c)
+            if not (isinstance(g, ast.If) and _loop_varying(L, g.test)):
+                verdicts.append((None, f"`continue` (line {c.lineno}) can leave the iteration before `{src(inc_st)}`; its condition was not shown "
+                                 "to vary with the destination rank", c))
+                continue
+            # ASSUMPTION (checked above): the `continue` is guarded by a test that varies with the destination rank, and it precedes the one `x +=
+            # size`
             verdicts.append((False, f"`continue` (line {c.lineno}, under `{src(g.test)[:50] if isinstance(g, ast.If) else '...'}`) leaves the iteration "
                              f"before `{src(inc_st)}`: the slot of that destination rank is not stepped over, every later block is packed one slot "
                              "too early, but the exchange delivers slot k of the send buffer to rank k - the ranks after it receive the block "
@@ -1968,7 +2273,7 @@ def packer_addressing(chk, rel, pack, fp, envp, vp, QP):
             continue
         inc_s = arith(inc, env_keep)
         if sympy.expand(inc_s - stride) != 0:
-            verdicts.append(_stride_verdict(inc_s, vp, fp, inc_st, f"the offset advances by `{src(inc)}` while the block written is `{stride}` long"))
+            verdicts.append(_stride_verdict(inc_s, vp, fp, inc_st, f"the offset advances by `{src(inc)}` while the block written is `{stride}` long", agreed))
             continue
         if not any(_occurs(b_, x) for b_ in L.body[:pos]):
             verdicts.append((None, f"`{src(inc_st)}` precedes the use of `{x}` in the iteration", inc_st))
@@ -1976,7 +2281,7 @@ def packer_addressing(chk, rel, pack, fp, envp, vp, QP):
         if sympy.expand(stride - size) == 0:
             verdicts.append((True, good, st))
         else:
-            verdicts.append(_stride_verdict(stride, vp, fp, st, f"the blocks are `{stride}` elements apart"))
+            verdicts.append(_stride_verdict(stride, vp, fp, st, f"the blocks are `{stride}` elements apart", agreed))
     bad = [v for v in verdicts if v[0] is False]
     und = [v for v in verdicts if v[0] is None]
     if bad:
@@ -2014,6 +2319,8 @@ def rank_loop_coverage(chk, rel, fn, q, loop, env, what, peeled=None):
         if all(whole):
             ok = True
         elif cut:
+            # ASSUMPTION: the header, with its locals written out, is a SLICE of the per-rank table of the process axis (texts fully expanded by xsrc;
+            # any other form is undecided); a store outside the loop that may handle the missing ranks (`peeled`) withdraws the diagnosis below
             bad = (f"`{hdr}` runs over a part (`{cut[0]}`) of the per-rank table: the ranks that are cut off get no block packed / have their "
                    "received block never copied, their part of the field is stale memory")
     else:
@@ -2021,6 +2328,8 @@ def rank_loop_coverage(chk, rel, fn, q, loop, env, what, peeled=None):
         if len(args) == 1 and re.fullmatch(count, args[0]):
             ok = True
         elif len(args) == 1 and re.fullmatch(count + r"-\d+", args[0]):
+            # ASSUMPTION: the bound is literally (number of ranks) - d / starts at a literal >= 1, the count being one of the recognised ways of
+            # writing the size of the exchanged process axis; nothing outside the loop handles the remaining ranks (`peeled`)
             bad = f"`{hdr}` stops before the last rank: the block of the last rank(s) is never handled, that part of the field keeps stale memory"
         elif len(args) == 2 and re.fullmatch(r"[1-9]\d*", args[0]) and re.fullmatch(count, args[1]):
             bad = f"`{hdr}` starts after rank 0: the block of the first rank(s) is never handled, that part of the field keeps stale memory"
@@ -2046,8 +2355,20 @@ def _exclusive(a, b):
     return any(x[0] == y[0] and x[1] != y[1] for x in A for y in B)
 
 
-def _stride_verdict(stride, vp, fp, node, lead):
+def _loop_varying(loop, test):
+    """does a test read a name the loop binds (its targets or a local stored in its body)?"""
+    bound = {x.id for x in ast.walk(loop.target) if isinstance(x, ast.Name)} if isinstance(loop, ast.For) else set()
+    bound |= {x.id for b_ in loop.body for x in ast.walk(b_) if isinstance(x, ast.Name) and isinstance(x.ctx, ast.Store)}
+    return any(isinstance(x, ast.Name) and x.id in bound for x in ast.walk(test))
+
+
+def _stride_verdict(stride, vp, fp, node, lead, agreed=True):
+    """ASSUMPTION of the diagnosis: `vp` IS the size of the chunk the exchange delivers per rank - established by comparing it with the
+    unpacker's chunk (G1-geometry-pack-vs-unpack held for a proven block-size variable); otherwise the other product may be the real
+    block size and the rule cannot tell which of the two is wrong: undecided"""
     t = str(stride)
+    if not agreed:
+        return (None, f"{lead}; which of `{t}` and `{vp}` is the exchanged block size was not established", node)
     if t in fp.prods or ".size" in t or "max_block_size" in t:
         return (False, f"{lead}, not the size `{vp}` of the padded block: the blocks overlap or leave gaps in the send buffer, which the "
                 "Alltoall cuts into equal chunks of the block size", node)
@@ -2080,7 +2401,10 @@ def _fast_path_send(pack, st, lo, hi, env_keep, vp, fp):
     mentions = [k for k in padded if any(f"max_block_shape[{k}]" in src(t).replace(" ", "") or f"mpi_lengths({k})" in src(t).replace(" ", "")
                                          for t, pol, kind in guards_of(st))]
     unguarded = [k for k in padded if k not in mentions and f".shape[{k}]" not in gtxt.replace(" ", "")]
-    if unguarded:
+    # ASSUMPTION of the diagnosis: the guards speak about single extents only; a test on a whole size (`source.size == n*size`,
+    # np.prod(...), the block-size variable) may establish the same fact for all axes at once: undecided
+    whole = any(isinstance(x, ast.Name) and x.id == vp for t, pol, kind in guards_of(st) for x in ast.walk(t)) or ".size" in gtxt or "prod(" in gtxt
+    if unguarded and not whole:
         return (False, f"`{src(st)[:70]}` (taken when `{gtxt[:80]}`) writes all blocks at once as one contiguous prefix of `{src(hi)}` = "
                 f"prod(layout_source.shape) elements, i.e. blocks of the LOCAL shape; the exchange and the unpacker cut the send buffer every "
                 f"`{vp}` = prod({sl.base} with {', '.join('[' + k + '] = ' + v for k, v in sl.over.items())}) elements. The test does not "
@@ -2144,6 +2468,65 @@ def _step_exchange_extents(xsite, pack, vp):
     return None
 
 
+_COUNT_RE = (r"(?:mpi_size|nSplits|\w*comm\w*\.Get_size\(\)|self\._subcomms\[axis\[0\]\]\.Get_size\(\)|"
+             r"layout_(?:source|dest)\.nprocs\[axis\[0\]\])")
+
+
+def _unify_counts(canon):
+    """(base, positions, product) with every way of writing `number of ranks of the exchanged process axis` replaced by one symbol"""
+    import re
+    import sympy
+    base, keys, expr = canon
+    n = sympy.Symbol("<ranks of the exchange>")
+    sub = {a: n for a in expr.free_symbols if re.fullmatch(_COUNT_RE, a.name.replace(" ", ""))}
+    return base, keys, sympy.expand(expr.subs(sub)) if sub else expr
+
+
+def _count_split_vs_layout_table(mod, fn_, env_, lay_):
+    """a kernel that reads none of the per-rank tables but cuts an array into one piece per rank with `np.array_split(x, <count>, axis)`:
+    numpy's convention (the first n mod p pieces get the extra element: starts(k) = floor(n/p) k + min(k, n mod p)) is compared with the
+    block table Layout.__init__ builds (read symbolically by C02's SplitModel).  -> diagnosis when the two are different functions, None
+    when they agree or when either side was not read (RELATIONAL: a Layout that used numpy's convention would agree)"""
+    import sympy as sp
+    cs = [c for c in ast.walk(fn_) if isinstance(c, ast.Call) and src(c.func) in ("np.array_split", "numpy.array_split") and len(c.args) >= 2]
+    if len(cs) != 1:
+        return None
+    c = cs[0]
+    cnt = expand(c.args[1], env_)
+    if isinstance(cnt, (ast.List, ast.Tuple, ast.ListComp)) or any(isinstance(x, ast.Call) and isinstance(x.func, ast.Attribute) and
+                                                                    x.func.attr in ("mpi_starts", "mpi_lengths", "cumsum") for x in ast.walk(cnt)):
+        return None          # split at explicit indices: not the count convention
+    import re
+    if not re.fullmatch(r"layout_(source|dest)\.nprocs\[axis\[0\]\]|\w*comm\w*\.Get_size\(\)|self\._subcomms\[axis\[0\]\]\.Get_size\(\)|mpi_size|nSplits",
+                        src(cnt).replace(" ", "")):
+        return None
+    if not mod.has("Layout.__init__"):
+        return None
+    try:
+        from .C02 import SplitModel, nf, _k, _q, _r, _p
+        m = SplitModel(mod.func("Layout.__init__"))
+    except Exception:
+        return None
+    if m.loop is None or m.table is None:
+        return None
+    E = nf(m.table[1].expr)
+    numpy_form = _q * _k + sp.Min(_k, _r)
+    try:
+        if sp.simplify(E - numpy_form) == 0:
+            return None
+        # a witness that the two start tables are different functions: second block (k = 1), remainder 1, two processes
+        d = (E - numpy_form).subs({_k: 1, _r: 1, _p: 2})
+        d = sp.simplify(d)
+    except Exception:
+        return None
+    if not (d.is_number and d != 0):
+        return None
+    return (f"`{src(c)[:70]}` cuts the block into one piece per rank with numpy's convention (the FIRST n mod p pieces are one element longer: "
+            f"piece k starts at floor(n/p) k + min(k, n mod p)), but every Layout - and the receiving side, which places the blocks by "
+            f"the per-rank tables mpi_starts/mpi_lengths - uses the table of Layout.__init__, starts(k) = {m.table[1].expr}: when the extent is not a "
+            "multiple of the number of processes the piece sent to a rank is not the index range that rank owns, the field comes out shifted")
+
+
 def geometry_check(chk, mod):
     import sympy
     from ..core import increment_of, same_expr
@@ -2170,7 +2553,7 @@ def geometry_check(chk, mod):
     else:
         slp = written_out(fp.prods[vp][0], envp)
         slu = written_out(fu.prods[vu][0] if vu is not None else recv_shape, envu)
-        P, Uu = _canon(slp), _canon(slu)
+        P, Uu = _unify_counts(_canon(slp)), _unify_counts(_canon(slu))
         # mpi_size is the size of the communicator the exchange runs on
         mpi = envu.get("mpi_size")
         recv = [c for c in ast.walk(unpack) if isinstance(c, ast.Call) and isinstance(c.func, ast.Attribute) and c.func.attr == "Alltoall"]
@@ -2184,16 +2567,22 @@ def geometry_check(chk, mod):
         who = None
         if mpi is not None and isinstance(mpi, ast.Call) and isinstance(mpi.func, ast.Attribute) and mpi.func.attr == "Get_size" and not mpi.args:
             who = xsrc(mpi.func.value, envu)
+            # ASSUMPTION of the diagnosis: the two communicator expressions are written in one vocabulary (both plain names of this
+            # routine, or both entries of self._subcomms), so that different texts are different communicators; a parameter on one side
+            # and an attribute on the other may be the same object (bound by the caller): undecided
+            import re as _re
+            comparable = comm_x is not None and ((_re.fullmatch(r"\w+", who) and _re.fullmatch(r"\w+", comm_x)) or
+                                                 (who.startswith("self._subcomms[") and comm_x.startswith("self._subcomms[")))
             if comm_of_exchange is not None and who == comm_x:
                 okm = True
-            elif comm_of_exchange is not None:
+            elif comm_of_exchange is not None and comparable:
                 badm = (f"mpi_size is the size of `{who}` but the exchange runs on `{comm_of_exchange}`: the number of blocks that are "
                         "received differs from the number the buffer view and the unpack loop assume")
         elif mpi is None and "mpi_size" not in {n.id for n in ast.walk(unpack) if isinstance(n, ast.Name)}:
             okm = True if comm_of_exchange is not None else None      # written out in place: covered by the product comparison
         chk.pat("G1-mpi-size-is-comm-size", unpack, "mpi_size = comm.Get_size()", okm,
                 "mpi_size is the size of the communicator the exchange runs on", badm, file=rel, func=QU)
-        msz = sympy.Symbol((who if who is not None and okm else "comm") + ".Get_size()")
+        msz = sympy.Symbol("<ranks of the exchange>")
         ok = P[0] == Uu[0] and P[1] == Uu[1] and sympy.expand(P[2] * msz - Uu[2]) == 0
         if ok and not recv:
             # the exchange sits in the callers: what they exchange must be (the packer's block) x (communicator size) as well
@@ -2202,10 +2591,17 @@ def geometry_check(chk, mod):
                 ok = None
                 chk.ob("G1-geometry-pack-vs-unpack", unpack, "size = np.prod(source_shape)", None, "cannot decide: " + why, file=rel, func=QU)
         bad = None
-        if not ok and _known_product(slp) and _known_product(slu):
+        # ASSUMPTIONS of the diagnosis: both products are written in the vocabulary the rule reads (_known_product), the number of
+        # ranks of the exchange is one symbol however it is written (mpi_size / comm.Get_size() / nprocs[axis[0]]), and each block-size
+        # variable is PROVEN to be the one the routine cuts its flat buffer with (not the reference name taken as a guess)
+        proven = getattr(fp, "size_var_proven", False) and (getattr(fu, "size_var_proven", False) or vu is None)
+        chk.__dict__["_c01_vp_agrees"] = bool(ok) and proven
+        if not ok and _known_product(slp) and _known_product(slu) and proven:
             if P[0] != Uu[0]:
                 bad = f"the packer's block is built from `{P[0]}`, the exchanged chunk from `{Uu[0]}`: different local shapes"
             elif P[1] != Uu[1]:
+                # ASSUMPTION (checked in the condition above): both shape lists are in the known vocabulary, both block-size variables are proven cut
+                # extents, the rank count is one symbol
                 bad = (f"the packer pads positions {sorted(P[1])} of the block, the unpacker positions {sorted(Uu[1])}: the chunk that is "
                        "exchanged is not (communicator size) x (packed block)")
             else:
@@ -2244,6 +2640,10 @@ def geometry_check(chk, mod):
             else:
                 unknown.append(src(n))
         kinds = {n.func.attr for n in tb}
+        if not tb:
+            w_ = _count_split_vs_layout_table(mod, fn_, env_, lay_)
+            if w_:
+                wrong.append(w_)
         okt = not wrong and not unknown and kinds == {"mpi_lengths", "mpi_starts"}
         chk.pat(rule, tb[0] if tb else fn_, f"mpi_lengths/mpi_starts of {lay_} along axis[0]", okt, what,
                 "; ".join(wrong) or None, file=rel, func=q_)
@@ -2251,10 +2651,13 @@ def geometry_check(chk, mod):
     envu2 = envu
     st_b = [n for n in ast.walk(unpack) if isinstance(n, ast.Assign) and isinstance(n.targets[0], ast.Subscript) and src(n.targets[0].slice) == "0"
             and isinstance(n.targets[0].value, ast.Name) and n.targets[0].value.id in fu.lists and fu.lists[n.targets[0].value.id].kind == "slices"]
-    lp_r = [l_ for l_ in (loops_around(unpack, st_b[0]) if len(st_b) == 1 else []) if loop_index(l_)[0] is not None]
+    lp_all = loops_around(unpack, st_b[0]) if len(st_b) == 1 else []
+    lp_r = [l_ for l_ in lp_all if loop_index(l_)[0] is not None]
     oko, whyo = None, "offset of the received block in the buffer not recognised"
-    if len(st_b) == 1 and lp_r:
-        rv = loop_index(lp_r[0])[0]
+    if len(st_b) == 1 and lp_all:
+        # the counter of the loop over the sending ranks (none when the loop runs over the per-rank tables themselves)
+        rv = loop_index(lp_r[0])[0] if lp_r else "<rank>"
+        lp_r = lp_r or lp_all
         v = st_b[0].value
         for _ in range(3):
             if isinstance(v, ast.Name):
@@ -2284,8 +2687,8 @@ def geometry_check(chk, mod):
                 a0x = expand(a0, {k_: v_ for k_, v_ in envu2.items() if k_ != rv})
             except Exception:
                 a0x = a0
-            if same_expr(a0, f"layout_source.max_block_shape[axis[0]] * {rv}") or \
-                    same_expr(a0x, f"layout_source.max_block_shape[axis[0]] * {rv}"):
+            if rv != "<rank>" and (same_expr(a0, f"layout_source.max_block_shape[axis[0]] * {rv}") or
+                                    same_expr(a0x, f"layout_source.max_block_shape[axis[0]] * {rv}")):
                 oko, whyo = True, "block r of the receive buffer starts at r x (padded block length of the concatenated axis)"
             else:
                 t0 = src(a0).replace(" ", "")
@@ -2293,8 +2696,13 @@ def geometry_check(chk, mod):
                                           any("mpi_starts" in src(n.value) for n in ast.walk(unpack)
                                               if isinstance(n, ast.Assign) and src(n.targets[0]) == a0.value.id)):
                     # the reader uses the compact partition: wrong exactly when the writer spaces the blocks by the padded size
+                    # ASSUMPTIONS of the diagnosis: (1) the offset IS the r-th entry of the source layout's starts table along axis[0]
+                    # (nothing added to it); (2) the packer was shown to space the blocks uniformly by the padded block size
+                    # (G1-packer-advance holds), the block being padded along axis[0]; (3) the exchange is the Alltoall of this routine
+                    import re as _re
+                    exact = bool(_re.fullmatch(r"layout_source\.mpi_starts\(axis\[0\]\)\[(\w+|<rank>)\]", src(a0x).replace(" ", "")))
                     padded_writer = bool(chk.__dict__.get("_c01_packer_uniform")) and bool(recv) and P is not None and "axis[0]" in P[1]
-                    if padded_writer:
+                    if padded_writer and exact:
                         oko = False
                         whyo = (f"block r is read from the receive buffer at `{src(a0)}`, the start of the block in the UNPADDED partition, but the "
                                 f"packer spaces the blocks by the padded size `{vp}` (G1-packer-advance) and Alltoall delivers equal chunks: when "
@@ -2317,7 +2725,8 @@ def geometry_check(chk, mod):
     else:
         chk.ob("G1-rank-loop-coverage", unpack, "unpacking loop over the sending ranks", None,
                "no store into the destination inside a loop over the ranks was found in the unpacker", file=rel, func=QU)
-    _bufsize_rules(chk, rel, init, fi, envi, P)
+    # (a packer block that was read through a GUESSED block-size variable is not a reference to compare the buffer size with)
+    _bufsize_rules(chk, rel, init, fi, envi, P if getattr(fp, "size_var_proven", False) else None)
     return fp, fu
 
 
@@ -2328,28 +2737,112 @@ def bufsize_rules(chk, mod):
     pack, init = mod.func("LayoutHandler._extract_from_source"), mod.func("LayoutHandler.__init__")
     fp, fi = ShapeFlow(pack), ShapeFlow(init)
     vp = _block_size_var(fp)
-    P = _canon(written_out(fp.prods[vp][0], inline_locals(pack))) if vp is not None else None
+    P = _canon(written_out(fp.prods[vp][0], inline_locals(pack))) if vp is not None and getattr(fp, "size_var_proven", False) else None
     envi = _init_env(init)
     _bufsize_rules(chk, mod.rel, init, fi, envi, P)
 
 
 def _pair_roles(init):
-    """{variable: role} of the two layouts of a connected pair in the constructor: the arguments of the `_get_swap_axes(a, b)` call
-    that yields the axis triple are (source, destination)"""
+    """{variable: role} of the two layouts of a connected pair in the routine that sizes the exchange block: the arguments of the
+    `_get_swap_axes(a, b)` call that yields the axis triple are (source, destination).  None when no such call is found (which of
+    the two layouts plays which role is then not known: the callers treat the block as not read)"""
     for c in ast.walk(init):
         if isinstance(c, ast.Call) and isinstance(c.func, ast.Attribute) and c.func.attr == "_get_swap_axes":
-            m = {}
-            args = list(c.args) + [None, None]
-            a = args[0] if args[0] is not None else next((k.value for k in c.keywords if k.arg == "layout_source"), None)
-            b = args[1] if len(c.args) > 1 else next((k.value for k in c.keywords if k.arg == "layout_dest"), None)
-            if isinstance(a, ast.Name) and isinstance(b, ast.Name):
+            a = c.args[0] if c.args else next((k.value for k in c.keywords if k.arg == "layout_source"), None)
+            b = c.args[1] if len(c.args) > 1 else next((k.value for k in c.keywords if k.arg == "layout_dest"), None)
+            if isinstance(a, ast.Name) and isinstance(b, ast.Name) and a.id != b.id:
                 return {a.id: "layout_source", b.id: "layout_dest"}
-    return {"l1": "layout_source", "l2": "layout_dest"}
+            return None
+    return None
 
 
 def _init_env(init):
-    keep = {"axis"} | set(_pair_roles(init))
+    keep = {"axis"} | set(_pair_roles(init) or ("l1", "l2"))
     return {k: v for k, v in inline_locals(init).items() if k not in keep}
+
+
+def _size_collection(init, F, e, meths, in_iter=False, depth=6):
+    """the numbers a collection expression holds, each with the routine it is computed in: [(F, value expression, node, inside an
+    iteration over the pairs?)]; None when some part of the collection is not one of the forms read here (list/tuple displays,
+    `+` of collections, comprehensions, list()/tuple()/chain() of collections, a local bound once to such a collection, a call of a
+    nested generator function (its `yield`s), and - as an element - a call of a method of the same class (its `return`s))"""
+    if depth <= 0:
+        return None
+    if isinstance(e, (ast.List, ast.Tuple, ast.Set)):
+        out = []
+        for x in e.elts:
+            if isinstance(x, ast.Starred):
+                sub = _size_collection(init, F, x.value, meths, in_iter, depth - 1)
+            else:
+                sub = _size_element(init, F, x, meths, in_iter, depth - 1)
+            if sub is None:
+                return None
+            out += sub
+        return out
+    if isinstance(e, ast.BinOp) and isinstance(e.op, ast.Add):
+        a, b = _size_collection(init, F, e.left, meths, in_iter, depth - 1), _size_collection(init, F, e.right, meths, in_iter, depth - 1)
+        return None if a is None or b is None else a + b
+    if isinstance(e, (ast.ListComp, ast.GeneratorExp, ast.SetComp)):
+        return _size_element(init, F, e.elt, meths, True, depth - 1)
+    if isinstance(e, ast.Call) and src(e.func) in ("list", "tuple", "set", "sorted", "iter") and len(e.args) == 1 and not e.keywords:
+        return _size_collection(init, F, e.args[0], meths, in_iter, depth - 1)
+    if isinstance(e, ast.Call) and src(e.func) in ("chain", "itertools.chain") and not e.keywords:
+        out = []
+        for x in e.args:
+            sub = _size_collection(init, F, x, meths, in_iter, depth - 1)
+            if sub is None:
+                return None
+            out += sub
+        return out
+    if isinstance(e, ast.Call) and isinstance(e.func, ast.Name) and not e.args and not e.keywords:
+        # a nested generator function of the routine: what it yields
+        gs = [g for g in ast.walk(F) if isinstance(g, ast.FunctionDef) and g is not F and g.name == e.func.id]
+        if len(gs) == 1 and not gs[0].args.args:
+            g = gs[0]
+            ys = [y for y in ast.walk(g) if isinstance(y, (ast.Yield, ast.YieldFrom))]
+            if not ys or any(isinstance(y, ast.YieldFrom) or y.value is None for y in ys) or any(isinstance(r, ast.Return) and r.value is not None for r in ast.walk(g)):
+                return None
+            out = []
+            for y in ys:
+                looped = bool([l_ for l_ in loops_around(g, y)])
+                out.append((g, y.value, y, looped))
+            return out
+        return None
+    if isinstance(e, ast.Name):
+        ds = [n for n in ast.walk(F) if isinstance(n, (ast.Assign, ast.AugAssign, ast.For, ast.comprehension, ast.AnnAssign))
+              and any(isinstance(x, ast.Name) and x.id == e.id and isinstance(x.ctx, ast.Store)
+                      for t in ([n.target] if not isinstance(n, ast.Assign) else n.targets) for x in ast.walk(t))]
+        grows = [c for c in ast.walk(F) if isinstance(c, ast.Call) and isinstance(c.func, ast.Attribute) and src(c.func.value) == e.id]
+        if len(ds) == 1 and isinstance(ds[0], ast.Assign) and len(ds[0].targets) == 1 and isinstance(ds[0].targets[0], ast.Name) and not grows:
+            return _size_collection(init, F, ds[0].value, meths, in_iter or bool(loops_around(F, ds[0])), depth - 1)
+        return None
+    return None
+
+
+def _size_element(init, F, e, meths, in_iter, depth):
+    """one element of such a collection: the expression itself, or - for a call of a method of the same class - what that method returns"""
+    if isinstance(e, ast.Call):
+        g = _own_class_call(e, CLS, meths)
+        if g is not None and g not in ("_get_swap_axes", "compatible"):
+            h = meths[g]
+            rets = [r for r in ast.walk(h) if isinstance(r, ast.Return)]
+            if not rets or any(r.value is None for r in rets) or any(isinstance(y, (ast.Yield, ast.YieldFrom)) for y in ast.walk(h)):
+                return None
+            return [(h, r.value, r, True if in_iter else bool(loops_around(h, r))) for r in rets]
+    return [(F, e, e, in_iter)]
+
+
+def _local_block_factor(e):
+    """`L.size` / `L.max_block_size` / np.prod(L.shape) / np.prod(L.max_block_shape) of something reached by names, attributes and
+    subscripts only (no call in between)"""
+    if isinstance(e, ast.Call) and src(e.func) in ("np.prod", "numpy.prod", "int") and len(e.args) == 1 and not e.keywords:
+        a = e.args[0]
+        if src(e.func) == "int":
+            return _local_block_factor(a)
+        return isinstance(a, ast.Attribute) and a.attr in ("shape", "max_block_shape") and \
+            all(isinstance(x, (ast.Name, ast.Attribute, ast.Subscript, ast.Constant, ast.Load)) for x in ast.walk(a.value))
+    return isinstance(e, ast.Attribute) and e.attr in ("size", "max_block_size") and \
+        all(isinstance(x, (ast.Name, ast.Attribute, ast.Subscript, ast.Constant, ast.Load)) for x in ast.walk(e.value))
 
 
 def _bufsize_rules(chk, rel, init, fi, envi, P):
@@ -2389,14 +2882,28 @@ def _bufsize_rules(chk, rel, init, fi, envi, P):
                     shrinks = (l_ == src(v) and r_ == "self._buffer_size" and isinstance(op, (ast.Lt, ast.LtE))) or \
                               (r_ == src(v) and l_ == "self._buffer_size" and isinstance(op, (ast.Gt, ast.GtE)))
                     if "self._buffer_size" in (l_, r_):
+                        # ASSUMPTION: the guard compares exactly the stored value with self._buffer_size (texts equal); any other guard leaves `mono`
+                        # undecided
                         mono = True if (grows and pol) or (shrinks and not pol) else False if (shrinks and pol) or (grows and not pol) else None
                         break
             else:
                 if not any("self._buffer_size" in src(t) for t, _, _ in guards_of(s_)) and "self._buffer_size" not in src(v):
-                    mono = False          # plain overwrite: the last pair wins
-        cands.append((s_, v, mono))
+                    # plain overwrite: the last pair wins.  ASSUMPTION: the stored value is this pair's own size, not a running maximum
+                    # kept in a local (`best = max(best, x)` / `if x > best: best = x`): such a local makes the store monotone
+                    acc = False
+                    for nm in {x.id for x in ast.walk(v) if isinstance(x, ast.Name)}:
+                        for d in _defs(init, nm):
+                            if any(isinstance(x, ast.Name) and x.id == nm for x in ast.walk(d.value)) or \
+                                    any(any(isinstance(x, ast.Name) and x.id == nm for x in ast.walk(t)) for t, _, _ in guards_of(d)):
+                                acc = True
+                    mono = None if acc else False
+        cands.append((s_, v, mono, init))
     # ---- the same maximum written as a collection: candidates gathered in a local list, `max(list)` stored after the loop
     first_vals = [(n, n.value) for n in first]
+    meths = {}
+    cdef = parent(init)
+    if isinstance(cdef, ast.ClassDef):
+        meths = {m.name: m for m in cdef.body if isinstance(m, ast.FunctionDef)}
     for n in list(first):
         v = n.value
         if isinstance(v, ast.Call) and src(v.func) in ("max", "min", "np.max", "np.min", "np.amax", "np.amin", "numpy.max", "numpy.min") \
@@ -2426,12 +2933,49 @@ def _bufsize_rules(chk, rel, init, fi, envi, P):
                 [(x, y) for x, y in adds if not in_loop(x)]
             for x, y in adds:
                 if in_loop(x):
-                    cands.append((x, y, True if grows else False))
+                    cands.append((x, y, True if grows else False, init))
+    # ---- ... or as one expression: `max(<collection>)` over a display / concatenation / comprehension / generator, whose elements may
+    # be computed by a helper method or a nested generator of the class (read where they are computed)
+    for n in list(first):
+        v = n.value
+        if not any(fn_ is n for fn_, _ in first_vals):
+            continue
+        if isinstance(v, ast.Call) and src(v.func) in ("max", "min", "np.max", "np.min", "np.amax", "np.amin", "numpy.max", "numpy.min") \
+                and len(v.args) >= 1 and all(k.arg == "default" for k in v.keywords):
+            grows = "max" in src(v.func)
+            if len(v.args) == 1:
+                items = _size_collection(init, init, v.args[0], meths)
+            else:
+                items = []
+                for a in v.args:
+                    sub = _size_element(init, init, a, meths, False, 5)
+                    items = None if items is None or sub is None else items + sub
+            if items is None or not any(looped for _, _, _, looped in items):
+                continue
+            first_vals = [(fn_, fv_) for fn_, fv_ in first_vals if fn_ is not n] + [(nd, y) for F_, y, nd, looped in items if not looped and any(F_ is x for x in ast.walk(init))]
+            for F_, y, nd, looped in items:
+                if looped:
+                    cands.append((nd if isinstance(nd, ast.stmt) else enclosing_stmt_of(nd) or n, y, True if grows else False, F_))
     sinks = [c[0] for c in cands]
     if not sinks:
         texts = " ".join(xsrc(n.value, envi) for n in stores)
         bad_ = None
-        if stores and "Get_size" not in texts and "max_block_shape" not in texts and "nprocs" not in texts:
+        # ASSUMPTION of the diagnosis `the size no longer depends on the exchange blocks`: the stored expression, with the locals written
+        # out, is CLOSED - it calls nothing whose body was not read (a method of the class, a nested function, a callable parameter) and
+        # reads no local that could not be written out; otherwise the blocks may be computed there: undecided
+        closed = bool(stores)
+        for n in stores:
+            vx = expand(n.value, envi)
+            for x in ast.walk(vx):
+                if isinstance(x, ast.Call) and src(x.func) not in ("max", "min", "np.prod", "numpy.prod", "int", "len", "np.max", "np.amax", "sum",
+                                                                 "np.maximum", "list", "tuple"):
+                    closed = False
+                if isinstance(x, ast.Name) and x.id not in ("np", "numpy", "self", "max", "min", "int", "len", "sum", "list", "tuple") \
+                        and x.id not in {a.arg for a in init.args.args}:
+                    closed = False
+                if isinstance(x, (ast.ListComp, ast.GeneratorExp, ast.SetComp, ast.Lambda, ast.Starred)):
+                    closed = False
+        if closed and "Get_size" not in texts and "max_block_shape" not in texts and "nprocs" not in texts:
             bad_ = (f"the advertised buffer size is `{src(stores[-1].value)[:80]}`: it no longer depends on the exchange blocks. One Alltoall "
                     "step needs (padded source block x padded destination block x communicator size) elements, which exceeds the "
                     "largest local block whenever an extent is not a multiple of the number of processes: arrays of exactly "
@@ -2440,9 +2984,18 @@ def _bufsize_rules(chk, rel, init, fi, envi, P):
                 "", bad_, file=rel, func=QI)
         return
     # ---- every value the candidate can take: block product x communicator size
-    full, bad, unknown = 0, [], []
+    full, bad, unknown, local = 0, [], [], []
     facts = {}
-    for s_, v, mono in cands:
+    ctx = {}
+    init0, fi0, envi0 = init, fi, envi
+    for s_, v, mono, F_ in cands:
+        # the routine the candidate is computed in (the constructor itself, a helper method, a nested generator): its own shape lists,
+        # locals and pair roles
+        if id(F_) not in ctx:
+            ctx[id(F_)] = (fi0, envi0) if F_ is init0 else (ShapeFlow(F_), _init_env(F_))
+        init = F_
+        fi, envi = ctx[id(F_)]
+        roles = _pair_roles(F_) or (_pair_roles(init0) if any(F_ is x for x in ast.walk(init0)) else None)
         for factors, guards in alternatives(init, v):
             block, comm, rest = None, None, []
             for f in factors:
@@ -2458,11 +3011,18 @@ def _bufsize_rules(chk, rel, init, fi, envi, P):
                     pass
                 else:
                     rest.append(src(f))
+            if block is None and comm is None and rest and all(_local_block_factor(expand(f, envi)) for f in factors):
+                # the size of a LOCAL block of one layout (`L.size`, `L.max_block_size`): read, and not an exchange block
+                local.append(" * ".join(src(f) for f in factors))
+                continue
             if block is None or rest:
                 unknown.append(" * ".join(src(f) for f in factors))
                 continue
             sl = written_out(block, envi)
-            I = canon_product(sl, _pair_roles(init))
+            if roles is None:
+                unknown.append("which of the two layouts of the pair is the source (no `_get_swap_axes(a, b)` call in the routine that sizes the block)")
+                continue
+            I = canon_product(sl, roles)
             facts["init"] = str(I)
             if P is None:
                 unknown.append("packer block not extracted")
@@ -2472,6 +3032,8 @@ def _bufsize_rules(chk, rel, init, fi, envi, P):
             if comm is not None:
                 if comm.replace(" ", "") != "self._subcomms[axis[0]]":
                     if comm.replace(" ", "") in ("self._subcomms[axis[1]]", "self._subcomms[axis[2]]"):
+                        # ASSUMPTION: `axis[k]` is in the producer's canonical numbering (handler_view renumbers the consumers, the constructor
+                        # included)
                         bad.append(f"the block count is the size of `{comm}`: the exchange runs on the communicator of the swapped "
                                    "process axis, self._subcomms[axis[0]]")
                     else:
@@ -2479,31 +3041,43 @@ def _bufsize_rules(chk, rel, init, fi, envi, P):
                     continue
                 if same:
                     full += 1
-                elif _known_product(sl):
+                elif _known_product(sl, roles):
+                    # ASSUMPTIONS (checked): the pair roles come from the `_get_swap_axes(a, b)` call of the sizing routine, the block is in the known
+                    # vocabulary, the packer's block was read through a PROVEN block-size variable (else P is None: undecided)
                     bad.append(f"buffer-size block {I} differs from the packer's block {P}: the send buffer the packer fills is larger "
                                "than the advertised size on some rank (and ranks disagree on bufferSize)")
                 else:
                     unknown.append(str(I))
             else:
                 # without a communicator factor: the arm for `no distributed axis is swapped` (unpadded local block) or a missing factor
-                if padded and not same and _known_product(sl):
+                if padded and not same and _known_product(sl, roles):
                     bad.append(f"buffer-size block {I} differs from the packer's block {P}")
+    init, fi, envi = init0, fi0, envi0
     okb = full >= 1 and not bad and not unknown
     diag = None
     if bad:
         diag = "; ".join(dict.fromkeys(bad))
+    elif not unknown and full == 0 and local and len(local) == sum(1 for c in cands for _ in alternatives(c[3], c[1])):
+        # ASSUMPTION: every candidate was read, and each is the size of a local block
+        diag = (f"the advertised buffer size is the largest of `{local[0][:60]}`: it no longer depends on the exchange blocks. One Alltoall "
+                "step needs (padded source block x padded destination block x communicator size) elements, which exceeds the "
+                "largest local block whenever an extent is not a multiple of the number of processes: arrays of exactly "
+                "bufferSize elements are then too small for the transposes")
     elif not unknown and full == 0:
+        # ASSUMPTION: every candidate was read (none unknown) and none carries the communicator factor
         diag = ("no connected pair's block is multiplied by the size of the communicator of the swapped axis: one Alltoall step holds a "
                 "padded block for every rank of that communicator, so the advertised size is too small by that factor")
     chk.pat("G1-geometry-bufsize", sinks[0], src(sinks[0])[:100], okb,
             "advertised buffer size = packed block x size of the communicator of the swapped axis", diag, file=rel, func=QI,
             facts=dict(facts, packer=str(P)))
     # ---- monotone maximum over the pairs
-    monos = [m for _, _, m in cands]
+    monos = [c[2] for c in cands]
     okm = all(m is True for m in monos)
     badm = None
     if any(m is False for m in monos):
         s_ = [c[0] for c in cands if c[2] is False][0]
+        # ASSUMPTION (checked where `mono` is computed): the update is min(), a guard that keeps the smaller value, or an unguarded overwrite by a
+        # value that is not a running maximum kept in a local
         badm = (f"`{src(s_)[:70]}` does not keep the larger of the old and the new value: the advertised size is that of the last (or the "
                 "smallest) connected pair, too small for the transposes of the others")
     chk.pat("G1-bufsize-max", sinks[0], "self._buffer_size = max(...)", okm, "buffer size is the maximum over all compatible pairs", badm,
@@ -2515,7 +3089,8 @@ def _bufsize_rules(chk, rel, init, fi, envi, P):
         t0 = xsrc(fv0, envi)
         if ".size" in t0 or "max_block_size" in t0:
             ok0 = True
-        elif isinstance(fv0, ast.Constant):
+        elif isinstance(fv0, ast.Constant) and not local:
+            # ASSUMPTION: no candidate supplies a layout's own block size later (a loop over the layouts raising the size to `l.size`)
             bad0 = (f"the advertised size starts from the constant {fv0.value!r}: a handler with a single layout (no connected pair) "
                     "advertises a size that does not cover its own block" +
                     (", and size 0 marks a plot-only rank whose transposes do nothing" if fv0.value == 0 else ""))
@@ -2569,14 +3144,28 @@ def comm_axis_check(chk, mod):
             comms.append(("the exchange in this routine runs on", xsrc(c_.func.value, cenv)))
         cp_ = comms[0][1] if comms else None
         cu_ = next((t for _, t in comms if t != cp_), cp_)
-        lay_p = (src(pa["layout_source"]), src(pa["layout_dest"]))
-        lay_u = (src(ua["layout_source"]), src(ua["layout_dest"]))
+        lenv = {k: v for k, v in env.items() if k not in ("layout_source", "layout_dest")}
+        lay_p = (xsrc(pa["layout_source"], lenv), xsrc(pa["layout_dest"], lenv))
+        lay_u = (xsrc(ua["layout_source"], lenv), xsrc(ua["layout_dest"], lenv))
         bad, und = [], []
+        # ASSUMPTION of the three diagnoses below: the expressions compared are written in one vocabulary, so that different texts are
+        # different values - two `self._get_swap_axes(a, b)` calls with the routine's layout parameters as arguments, the layout
+        # parameters themselves; anything else (a parameter handed in by the caller, a table look-up) is not compared: undecided
+        gsa = r"self\._get_swap_axes\((layout_source|layout_dest),(layout_source|layout_dest)\)"
+        import re
         if axp != axu:
-            bad.append(f"the packer gets the axis triple `{axp}`, the unpacker `{axu}`")
+            if re.fullmatch(gsa, axp.replace(" ", "")) and re.fullmatch(gsa, axu.replace(" ", "")):
+                bad.append(f"the packer gets the axis triple `{axp}`, the unpacker `{axu}`")
+            else:
+                und.append(f"axis triples `{axp}` / `{axu}`")
         if lay_p != lay_u:
-            bad.append(f"the packer is told the layouts {lay_p}, the unpacker {lay_u}")
+            if set(lay_p) | set(lay_u) <= {"layout_source", "layout_dest"}:
+                bad.append(f"the packer is told the layouts {lay_p}, the unpacker {lay_u}")
+            else:
+                und.append(f"layouts {lay_p} / {lay_u}")
         elif lay_p == ("layout_dest", "layout_source"):
+            # ASSUMPTION: the callee's parameters carry their roles in their names (layout_source / layout_dest, normalised by the engine's
+            # reference-name pass); both calls were matched parameter by parameter (call_args)
             bad.append("source and destination layout are passed in exchanged order")
         elif lay_p != ("layout_source", "layout_dest"):
             und.append(f"layouts {lay_p}")
@@ -2585,6 +3174,8 @@ def comm_axis_check(chk, mod):
             if axp.replace(" ", "") == AX.replace(" ", ""):
                 pass
             elif axp.replace(" ", "") == "self._get_swap_axes(layout_dest,layout_source)":
+                # ASSUMPTION: packer and unpacker read axis[1] as a source position and axis[2] as a destination position (their own rules
+                # G3-axis-index-space decide that); the call text is exactly _get_swap_axes(layout_dest, layout_source)
                 bad.append("the axis triple is computed for the opposite direction (destination, source): axis[1] and axis[2] exchange roles")
             elif isinstance(a0, ast.Subscript) and isinstance(a0.value, ast.Attribute) and isinstance(a0.value.value, ast.Name) \
                     and a0.value.value.id == "self":
@@ -2602,10 +3193,14 @@ def comm_axis_check(chk, mod):
             und.append("the communicator of the exchange (neither passed to the unpacker nor used by a collective in this routine)")
         elif cp_ != cu_:
             a_, b_ = comms[0], next(x for x in comms if x[1] != cp_)
-            bad.append(f"{a_[0]} `{a_[1]}`, {b_[0]} `{b_[1]}`")
+            if all(t.replace(" ", "").startswith("self._subcomms[") for _, t in (a_, b_)):
+                bad.append(f"{a_[0]} `{a_[1]}`, {b_[0]} `{b_[1]}`")
+            else:
+                und.append(f"communicators `{a_[1]}` / `{b_[1]}` (not both entries of self._subcomms: not compared)")
         else:
             m = re.fullmatch(r"self\._subcomms\[axis\[(\d)\]\]", cp_.replace(" ", ""))
             if m and m.group(1) != "0":
+                # ASSUMPTION: canonical numbering of the axis triple; the communicator table self._subcomms is indexed by process axis
                 bad.append(f"the exchange runs on `{cp_}`: axis[{m.group(1)}] is a layout position, the communicator of the swapped "
                            "process axis is self._subcomms[axis[0]]")
             elif not m:
@@ -2623,7 +3218,15 @@ def comm_axis_check(chk, mod):
             b2 = sent[0] if len(sent) == 1 else "<send buffer of the exchange not followed>"
         okb = b1 == b2
         badb = None
-        if not okb and b1 in params and b2 in params:
+        # ASSUMPTION: the unpacker's exchange really SENDS its `data` parameter (read from its own collective: the send buffer is a view
+        # of `data`), or the collective is written in this routine
+        sends_data = bool(xs and ua.get("comm") is None)
+        for c_ in ast.walk(dup):
+            if isinstance(c_, ast.Call) and isinstance(c_.func, ast.Attribute) and c_.func.attr in ("Alltoall", "Alltoallv") and c_.args:
+                a0_ = c_.args[0].elts[0] if isinstance(c_.args[0], (ast.Tuple, ast.List)) and c_.args[0].elts else c_.args[0]
+                if _flat_cut(dup, a0_, enclosing_stmt_of(c_), "data") is not None:
+                    sends_data = True
+        if not okb and b1 in params and b2 in params and sends_data:
             badb = (f"the packer fills `{b1}` but the exchange sends `{b2}`: the blocks that are exchanged are not the ones that were packed")
         chk.pat("G2-pack-buffer-is-send-buffer", fn, f"{b1} / {b2}", okb, "the buffer filled by the packer is the send buffer of the exchange",
                 badb, file=rel, func=q)
@@ -2812,11 +3415,19 @@ def swap_axes_def_check(chk, mod):
         got = want
     if got != want:
         if all(vocab.fullmatch(g) for g in got) and not other:
-            if len(got) == 2 and got == want[:2]:
+            uses_third = any(mod.has(q_) and "axis[2]" in src(mod.func(q_)).replace(" ", "")
+                             for q_ in (f"{CLS}._extract_from_source", f"{CLS}._rearrange_from_buffer", f"{CLS}._transpose", f"{CLS}._transpose_source_intact"))
+            if len(got) == 2 and got == want[:2] and not uses_third:
+                # the consumers do not read a third entry: they may compute the destination position themselves (a convention between
+                # producer and consumers, decided by the consumers' own rules): not a defect of the producer
+                und.append("the producer hands out two entries and no consumer reads axis[2]: how the destination position is obtained was not followed")
+            elif len(got) == 2 and got == want[:2]:
                 bad.append("the triple lacks axis[2], the position IN THE DESTINATION ordering of the dimension that is distributed in the source: "
                            "a consumer that addresses the destination view can then only use axis[1], a position in the SOURCE ordering, which is "
                            "the same number only when the two layouts differ by a plain exchange of two axes")
             else:
+                # ASSUMPTION: every entry is written in the producer's vocabulary (the loop counter, dims_order.index(...) of the two layouts) and
+                # they are not a permutation of the three roles (a permutation is a convention: handled above); the consumers still read three entries
                 bad.append(f"the entries appended are {[xsrc(e, xenv) for e in items]}, expected "
                            f"[{iv}, layout_source.dims_order.index(dest_dim), layout_dest.dims_order.index(source_dim)]: the packer/unpacker "
                            "read them with these roles")
@@ -2834,6 +3445,7 @@ def swap_axes_def_check(chk, mod):
             okg = True
         elif any(c in (w1.replace("!=", "=="), w1b.replace("!=", "==")) for c in conj):
             okg = False
+            # ASSUMPTION: the guard, with locals written out, literally tests dims_order[i] == dims_order[i] of the two layouts
             bad.append("the guard selects the directions whose dimension is the SAME in both layouts")
     if len({tuple(sorted(src(x) for x in g)) for g in gs}) > 1:
         okg = None
@@ -3184,7 +3796,7 @@ def run(chk):
     mod = chk.mod(U.LAYOUT)
     chk.in_file(U.LAYOUT)
     prog = Program(chk.repo, [U.LAYOUT])
-    flow_check(chk, prog, U.LAYOUT, CLS)
+    safe_flow_check(chk, prog, U.LAYOUT, CLS)
     handler_contract(chk, mod)
     chk.floor("D2-result-in-dest", 14)
     chk.floor("D1-source-intact", 7)
@@ -3529,6 +4141,12 @@ def payload_dtype(chk, mod, cls=CLS):
         for t, call in temps.items():
             if t not in filled or t not in drained:
                 continue
+            # ASSUMPTION: the name denotes this one allocation wherever it is filled and drained (it is bound exactly once)
+            n_bind = sum(1 for x in ast.walk(fn) if isinstance(x, ast.Name) and x.id == t and isinstance(x.ctx, (ast.Store, ast.Del)))
+            if n_bind != 1:
+                chk.ob(rule, call, f"{cls}.{name}: {t} = {src(call)[:60]}", None,
+                       f"`{t}` is bound {n_bind} times in {cls}.{name}: which array carries the field data was not followed", file=rel, func=f"{cls}.{name}")
+                continue
             like = call.func.attr in _ALLOC_LIKE
             dt = [k.value for k in call.keywords if k.arg == "dtype"]
             if not dt and not like and len(call.args) >= 2 and call.func.attr != "full":
@@ -3552,6 +4170,37 @@ def payload_dtype(chk, mod, cls=CLS):
             else:
                 why = f"the element type of the temporary `{t} = {src(call)[:60]}`, which carries field data, was not recognised"
             chk.ob(rule, call, f"{cls}.{name}: {t} = {src(call)[:60]}", ok, why, file=rel, func=f"{cls}.{name}")
+    # a workspace KEPT by the object between calls: allocated once (under `if self.X is None`) with the element type of the array of
+    # that first call.  The handler serves fields of different element types (real distribution function, complex potential): a later
+    # call with another type exchanges its data through an array of the first type.
+    # ASSUMPTIONS: the allocation takes its dtype from an array parameter of the routine (`p.dtype` / `*_like(p)`), it is executed only
+    # while the attribute is None (lazy initialisation), and nothing in the class compares the kept array's dtype with the caller's
+    from ..core import guards_of
+    for name, fn in class_methods(mod, cls).items():
+        params = {a.arg for a in fn.args.args} - {"self", "cls"}
+        for n in ast.walk(fn):
+            if not (isinstance(n, ast.Assign) and len(n.targets) == 1 and isinstance(n.targets[0], ast.Attribute) and isinstance(n.targets[0].value, ast.Name)
+                    and n.targets[0].value.id == "self" and isinstance(n.value, ast.Call) and isinstance(n.value.func, ast.Attribute)
+                    and isinstance(n.value.func.value, ast.Name) and n.value.func.value.id in ("np", "numpy") and n.value.func.attr in _ALLOC | _ALLOC_LIKE):
+                continue
+            call, attr = n.value, n.targets[0].attr
+            dts = [k.value for k in call.keywords if k.arg == "dtype"] or ([call.args[0]] if call.func.attr in _ALLOC_LIKE and call.args else [])
+            from_param = [d for d in dts if any(isinstance(x, ast.Name) and x.id in params for x in ast.walk(d))]
+            if not from_param:
+                continue
+            lazy = any(kind == "if" and pol and f"self.{attr}" in src(t) and ("is None" in src(t) or "hasattr" in src(t)) for t, pol, kind in guards_of(n)) or \
+                any(kind == "if" and not pol and f"self.{attr}" in src(t) and "is not None" in src(t) for t, pol, kind in guards_of(n))
+            compares = any(isinstance(x, ast.Compare) and f"self.{attr}.dtype" in src(x).replace(" ", "") for x in ast.walk(mod.cls(cls)))
+            if lazy and not compares:
+                chk.ob(rule, n, f"{cls}.{name}: {src(n)[:70]}", False,
+                       f"`{src(n)[:80]}` is executed once (while `self.{attr}` is None) and the array is kept for the lifetime of the {cls}: it has the "
+                       f"element type of the array of THAT call (`{src(from_param[0])}`). A later call with a field of another element type (a complex "
+                       "field after a real one) moves its data through the kept array: the imaginary part is dropped (numpy only warns) or the "
+                       "exchange is done with mismatched types", file=rel, func=f"{cls}.{name}")
+            elif lazy:
+                chk.ob(rule, n, f"{cls}.{name}: {src(n)[:70]}", None,
+                       f"`self.{attr}` is a kept workspace typed by the first caller; the class compares its dtype somewhere: whether every use is covered was not followed",
+                       file=rel, func=f"{cls}.{name}")
     chk.ob(rule, mod.cls(cls), f"temporaries of {cls} that carry field data", True if n_meth else None,
            f"{n_meth} routines with array parameters read: every temporary array that carries field data is listed above (none: the data "
            "only moves between the caller's arrays, whose type is the caller's)" if n_meth else "no routine with array parameters found",
@@ -3607,6 +4256,10 @@ def workspace_sizes(chk, mod, cls=CLS):
             if g is not None:
                 am = call_args(c, meths[g]) or {}
                 used = [(p_, v) for p_, v in am.items() if p_ in ARRAY_NAMES and isinstance(v, ast.Name) and v.id in tainted]
+                # ASSUMPTION of the size requirement: the callee takes part in an exchange (it reaches a collective, directly or through
+                # the routines it calls, or it is the public transpose); a helper that only copies has no such requirement
+                if used and not _reaches_collective(mod, cls, g):
+                    used = []
             elif isinstance(c.func, ast.Attribute) and c.func.attr in _COLLECTIVES:
                 used = [("buffer of " + c.func.attr, a) for a in c.args[:2] for x in ast.walk(a) if isinstance(x, ast.Name) and x.id in tainted
                         for a in [x]]
@@ -3622,6 +4275,8 @@ def workspace_sizes(chk, mod, cls=CLS):
                         or re.fullmatch(r"(source|dest|buf)\.size|len\((source|dest|buf)\)", t):
                     ok = True          # the advertised size, or the size of one of the caller's arrays (asserted to be at least that)
                 elif "_buffer_size" not in t and "bufferSize" not in t and "Get_size" not in t and "max_block" not in t and layout_size:
+                    # ASSUMPTIONS (checked): the allocation size, with the locals of the allocating routine written out, names a local layout size and
+                    # neither bufferSize nor a communicator size nor max_block*; the array is handed to a routine that reaches a collective
                     bad = (f"`{v.id}` is allocated in {cls}.{afn.name} with `{size[:90]}` elements - the size of a LOCAL block - and passed as `{p_}` "
                            f"in `{src(c)[:70]}`: one exchange step moves (padded source block x padded destination block) x communicator size "
                            "elements, which is what bufferSize is computed from and what transpose() asserts for the caller's arrays; as soon as "
@@ -3631,6 +4286,55 @@ def workspace_sizes(chk, mod, cls=CLS):
                             "the array the handler allocates for the exchange has the advertised buffer size", bad, file=rel, func=f"{cls}.{nm}")
                 if not ok and not bad:
                     o.msg = f"the size `{size[:80]}` of the array allocated for the exchange could not be compared with bufferSize"
+
+
+def _reaches_collective(mod, cls, name, _seen=None):
+    effs = class_effects(mod, cls)
+    meths = class_methods(mod, cls)
+    _seen = _seen if _seen is not None else set()
+    if name in _seen or name not in effs:
+        return name == "transpose"
+    _seen.add(name)
+    if name == "transpose":
+        return True
+    for r_, w_, l_, node, kind, arms in effs[name].events:
+        if kind == "collective":
+            return True
+    for c in ast.walk(meths[name]):
+        if isinstance(c, ast.Call):
+            if isinstance(c.func, ast.Attribute) and c.func.attr in _COLLECTIVES:
+                return True
+            g = _own_class_call(c, cls, meths)
+            if g is not None and _reaches_collective(mod, cls, g, _seen):
+                return True
+    return False
+
+
+def route_readers(mod, cls):
+    """the routines that walk the cached route map, found by ROLE: the public transpose of the class plus every method of the class or
+    of its base classes in this module that reads `self._route_map` without being one of its builders (a builder binds the attribute
+    itself or is the connection-map construction); the reference names are listed even when they carry no such read"""
+    out, seen = [], set()
+    todo = [cls]
+    while todo:
+        c = todo.pop(0)
+        if c in seen or not mod.has(c):
+            continue
+        seen.add(c)
+        cdef = mod.cls(c)
+        todo += [src(b).split(".")[-1] for b in cdef.bases]
+        for m in cdef.body:
+            if not isinstance(m, ast.FunctionDef):
+                continue
+            q = f"{c}.{m.name}"
+            reads = any(isinstance(x, ast.Attribute) and src(x) == "self._route_map" and isinstance(x.ctx, ast.Load) for x in ast.walk(m))
+            builds = any(isinstance(x, ast.Attribute) and src(x) == "self._route_map" and isinstance(x.ctx, ast.Store) for x in ast.walk(m)) \
+                or m.name in ("__init__", "_makeConnectionMap")
+            named = c == cls and m.name in ("transpose", "_transposeRedirect", "_transposeRedirect_source_intact")
+            if (reads and not builds) or named:
+                if q not in out:
+                    out.append(q)
+    return out
 
 
 def handler_contract(chk, mod):
@@ -3650,11 +4354,7 @@ def handler_contract(chk, mod):
     mod = canonical_steps(raw, CLS)
     # the cached route map is only read by the transposes
     from .. import lints
-    for q in (f"{CLS}.transpose", f"{CLS}._transposeRedirect", f"{CLS}._transposeRedirect_source_intact"):
-        if not mod.has(q):
-            chk.ob("G2-no-shared-mutation", mod.cls(CLS), f"{q} vs the cached route map", None,
-                   f"{q} does not exist any more: the multi-step routines were restructured", file=U.LAYOUT, func=q)
-            continue
+    for q in route_readers(mod, CLS):
         f_ = mod.func(q)
         muts = lints.shared_state_mutations(f_, lambda s_: s_.startswith("self._route_map") or s_.startswith("self._layouts") or s_.startswith("self._handlers"))
         chk.ob("G2-no-shared-mutation", f_, f"{q} vs the cached route map", not muts,
